@@ -29,7 +29,7 @@ def rowInert (r : String × String × String × String × String) : Bool :=
 
 /-- every first run of the probe leaves state behind (so "nothing carried over" is not vacuous) -/
 def everyScenarioDirties : Bool :=
-  dirtyScenarios.all fun d => dirtied.any fun p => p.1 == d
+  (dirtyScenarios.all fun d => dirtied.contains d) && 10 ≤ dirtiedAttrs.length
 
 /-- a second run that overruns its timeout ends the same way on the reused object as on a fresh one: killed
     (`exited = -9`), reported as timed out, within 3 s of a 0.3 s timeout -/
